@@ -9,7 +9,7 @@
 
 use std::sync::mpsc;
 
-use reed_solomon_simd::engine::Naive;
+use reed_solomon_simd::engine::{Engine, GfElement, Naive, GF_ORDER};
 use reed_solomon_simd::rate::{HighRateDecoder, HighRateEncoder, LowRateDecoder, LowRateEncoder, RateDecoder, RateEncoder};
 
 fn splitmix(s: &mut u64) -> u64 {
@@ -91,6 +91,23 @@ fn decode_second_half(job: &Job, half: Half) -> Vec<u8> {
     }
 }
 
+/// A direct call of the erasure-locator evaluation on a thread that has not built any engine: the first
+/// thing it touches is LOG_WALSH (and through it EXP_LOG), never SKEW - the other order of first use than
+/// every thread that starts by constructing an engine.
+fn bare_eval_poly(seed: u64) -> String {
+    let mut s = seed ^ 0x0E7A_1;
+    let mut erasures: Box<[GfElement; GF_ORDER]> = vec![0; GF_ORDER].into_boxed_slice().try_into().unwrap();
+    for _ in 0..5 {
+        erasures[splitmix(&mut s) as usize % 16] = 1;
+    }
+    <Naive as Engine>::eval_poly(&mut erasures, 16);
+    let mut h = 0xcbf2_9ce4_8422_2325u64;
+    for v in erasures.iter() {
+        h = (h ^ u64::from(*v)).wrapping_mul(0x0000_0100_0000_01B3);
+    }
+    format!("{h:016x}")
+}
+
 fn hex(v: &[u8]) -> String {
     v.iter().map(|b| format!("{b:02x}")).collect()
 }
@@ -115,7 +132,10 @@ fn main() {
     let jobs = jobs(seed);
     match cmd {
         "expect" => {
-            let all: Vec<String> = jobs.iter().map(|j| result_of(j, decode)).collect();
+            let mut all: Vec<String> = jobs.iter().map(|j| result_of(j, decode)).collect();
+            if decode {
+                all.push(bare_eval_poly(seed));
+            }
             println!("{}", all.join("/"));
         }
         "race" => {
@@ -124,6 +144,13 @@ fn main() {
             let (txs, rxs): (Vec<_>, Vec<_>) = (0..jobs.len()).map(|_| mpsc::channel::<(usize, Half)>()).unzip();
             let mut rxs: Vec<Option<mpsc::Receiver<(usize, Half)>>> = rxs.into_iter().map(Some).collect();
             let mut handles = Vec::new();
+            if decode {
+                // a fifth thread whose first use of the crate is a bare eval_poly (LOG_WALSH before any SKEW)
+                let want = expected[jobs.len()].clone();
+                handles.push(std::thread::spawn(move || {
+                    assert_eq!(bare_eval_poly(seed), want, "C16-VIOLATION: a bare eval_poly racing the first engine constructions gave other values than sequential use");
+                }));
+            }
             for (t, job) in jobs.iter().copied().enumerate() {
                 let next = txs[(t + 1) % jobs.len()].clone();
                 let rx = rxs[t].take().unwrap();
